@@ -24,7 +24,7 @@ def case(g, tier, ci):
     chans = r.sample([3, 1, 2, "B"], r.randint(1, 3))
     P = r.randint(1, 3)
     N = r.choice([2399, 2400, 2400, 2401, 2600])
-    amps = {ch: r.choice([0.5, 1, 2, 4.5]) for ch in chans}
+    amps = {ch: r.choice([0.5, 1, 2, 4.5, 1 + 2.0 ** -12]) for ch in chans}      # (one with digits below a millivolt)
     boundary = r.random() < 0.45
     ops = [{"op": "sq.new", "id": "s"}, {"op": "sq.setSR", "id": "s", "v": enc(SR)}]
     if r.random() < 0.5:
